@@ -334,6 +334,69 @@ def run_gaps(ctx):
              max_ack_ranges_seen=max(r["max_ranges"] for r in res))
 
 
+def config_case(args):
+    """A complete genuine exchange between two real endpoints under one version / cipher-suite /
+    ALPN configuration pair: every datagram is genuine peer output, so no API call may raise."""
+    from vlib import explore
+    from aioquic.tls import CipherSuite
+
+    label, cfg, c_suites, s_suites = args
+    out = {"label": label, "viol": None, "outcome": None}
+    w = netsim.NetSim(cfg, {"c": [{"op": "ping", "uid": 1}]}, explore.Chooser([]), max_steps=120, horizon=30.0)
+    if c_suites:
+        w.c_cfg.cipher_suites = [CipherSuite(x) for x in c_suites]
+    if s_suites:
+        w.s_cfg.cipher_suites = [CipherSuite(x) for x in s_suites]
+    try:
+        out["outcome"] = w.run(lambda ww: 1 in ww.ep["c"].pings_acked)
+        for name in ("c", "s"):
+            ep = w.ep[name]
+            if ep.conn is not None:
+                ep.conn.get_timer()
+                ep.conn.datagrams_to_send(now=w.now)
+                ep.conn.next_event()
+    except core.HarnessError:
+        raise
+    except Exception as e:  # noqa
+        entry, inner = classify(e)
+        if inner is None:
+            raise
+        out["viol"] = ({"monitor": "api_exception", "exc": type(e).__name__, "where": inner, "entry": entry,
+                        "input": "genuine_peer_flight"},
+                       "%s: %s in %s (API entry %s) during a genuine exchange under configuration %s"
+                       % (type(e).__name__, e, inner, entry, label))
+    return out
+
+
+def run_configs(ctx):
+    V = [V1, V2]
+    tasks = []
+    clients = [(V1, [V1]), (V2, [V2]), (V1, [V1, V2]), (V1, [V2, V1]), (V2, [V1, V2]), (V2, [V2, V1])]
+    servers = [[V1], [V2], [V1, V2], [V2, V1]]
+    for orig, sup in clients:
+        for ssup in servers:
+            cfg = {"version": orig, "c_supported": sup, "s_supported": ssup}
+            tasks.append(("versions c=%x%s s=%s" % (orig, [hex(x) for x in sup], [hex(x) for x in ssup]), cfg, None, None))
+    suites = [0x1301, 0x1302, 0x1303]
+    import itertools
+
+    lists = [list(p) for n in (1, 2) for p in itertools.permutations(suites, n)]
+    for cs in lists:
+        for ss in lists:
+            tasks.append(("suites c=%s s=%s" % (cs, ss), {}, cs, ss))
+    for ca in (["a"], ["b"], ["a", "b"]):
+        for sa in (["a"], ["b"], ["b", "a"]):
+            tasks.append(("alpn c=%s s=%s" % (ca, sa), {"alpn": ca, "s_alpn": sa}, None, None))
+    res = core.pmap(config_case, tasks, chunksize=4)
+    outcomes = set()
+    for r in res:
+        outcomes.add(r["outcome"])
+        if r["viol"]:
+            ctx.violation(r["viol"][0], r["viol"][1], {"part": "config", "label": r["label"]})
+    ctx.part("genuine_exchange_config_matrix", evaluations=len(res), states=len(res), transitions=len(res) * 10,
+             distinct_nontrivial=len(outcomes))
+
+
 def run_budget(ctx):
     tasks = [(L, trig) for L in range(0, 44) for trig in ("handshake_done", "unknown", "crypto_garbage")]
     res = core.pmap(budget_case, tasks, chunksize=4)
@@ -518,6 +581,7 @@ def run(ctx):
         raise core.HarnessError("vacuous: %d distinct outcomes" % len(outcomes))
     run_budget(ctx)
     run_gaps(ctx)
+    run_configs(ctx)
     # hostile TLS messages with valid MACs from a key-holding QUIC-level adversary
     from checks import c05_tls
 
